@@ -100,6 +100,7 @@ class MemoryStorageBackend(StorageBackend):
         retry_on_none=False,
     ) -> bytes:
         # Ignore retry_on_none since the in-memory metadata store is consistent.
+        StorageBackend.check_metadata_key(key)
         memento_key = self._get_memento_key(fn_with_arg_hash)
         # A look-up must not create an entry (self.metadata is a defaultdict)
         metadata_dict = self.metadata.get(memento_key, {})  # type: Dict[str, bytes]
@@ -114,6 +115,7 @@ class MemoryStorageBackend(StorageBackend):
     ):
         if self.read_only:
             raise ValueError("Cannot write metadata to a read-only storage backend")
+        StorageBackend.check_metadata_key(key)
         memento_key = self._get_memento_key(fn_with_arg_hash)
         metadata_dict = self.metadata[memento_key]  # type: Dict[str, bytes]
         metadata_dict[key] = value
